@@ -34,7 +34,7 @@ HIGH_RULE = ("An extreme-order driver (drv_high) runs every kind of operation "
 
 
 def high_runs(tier, seed, scalars=("Q", "d"), flavour="plain"):
-    return [RunSpec("high", sc, flavour, q(tier, 260, 26000)) for sc in scalars]
+    return [RunSpec("high", sc, flavour, q(tier, 260, 13000)) for sc in scalars]
 
 
 # ----------------------------------------------------------------------- C01
@@ -97,8 +97,8 @@ def c02_runs(tier, seed):
     n = q(tier, 16000, 1200000)
     runs = [RunSpec("eval", "Q", "plain", n), RunSpec("eval", "d", "plain", n),
             RunSpec("eval", "ld", "plain", n), RunSpec("eval", "f", "plain", n),
-            RunSpec("pool", "Q", "plain", q(tier, 160, 20000)),
-            RunSpec("pool", "d", "plain", q(tier, 320, 40000))] + high_runs(
+            RunSpec("pool", "Q", "plain", q(tier, 160, 8000)),
+            RunSpec("pool", "d", "plain", q(tier, 320, 24000))] + high_runs(
                 tier, seed)
     if tier == "thorough":
         runs += [RunSpec("eval", "d", "nochk", n // 2),
@@ -255,7 +255,7 @@ def expr_deep(tier, seed):
 
 def c05_runs(tier, seed):
     runs = expr_runs(tier, seed) + expr_deep(tier, seed) + expr_ld(tier, seed)
-    runs += [RunSpec("pool", "Q", "plain", q(tier, 160, 10000))]
+    runs += [RunSpec("pool", "Q", "plain", q(tier, 160, 5000))]
     return runs
 
 
@@ -290,8 +290,8 @@ def expr_ld(tier, seed):
 def c06_runs(tier, seed):
     return expr_runs(tier, seed) + expr_deep(tier, seed) + expr_ld(
         tier, seed) + high_runs(tier, seed) + [
-        RunSpec("pool", "Q", "plain", q(tier, 160, 10000)),
-        RunSpec("pool", "d", "plain", q(tier, 320, 20000))]
+        RunSpec("pool", "Q", "plain", q(tier, 160, 5000)),
+        RunSpec("pool", "d", "plain", q(tier, 320, 12000))]
 
 
 reg(Spec(
@@ -331,8 +331,8 @@ reg(Spec(
 def c07_runs(tier, seed):
     return expr_runs(tier, seed) + expr_deep(tier, seed) + expr_ld(
         tier, seed) + high_runs(tier, seed) + [
-        RunSpec("pool", "Q", "plain", q(tier, 160, 10000)),
-        RunSpec("pool", "d", "plain", q(tier, 320, 20000))]
+        RunSpec("pool", "Q", "plain", q(tier, 160, 5000)),
+        RunSpec("pool", "d", "plain", q(tier, 320, 12000))]
 
 
 reg(Spec(
@@ -367,7 +367,7 @@ ENTRIES = ["add", "sub", "mul", "add-assign", "sub-assign",
 def c08_runs(tier, seed):
     n = q(tier, 80000, 6000000)
     runs = [RunSpec("grids", "Q", "plain", n), RunSpec("grids", "d", "plain", n),
-            RunSpec("pool", "Q", "nochk", q(tier, 160, 10000))]
+            RunSpec("pool", "Q", "nochk", q(tier, 160, 5000))]
     if tier == "thorough":
         runs += [RunSpec("grids", "f", "nochk", n // 4),
                  RunSpec("grids", "ld", "nochk", n // 4)]
@@ -973,7 +973,7 @@ def c16_runs(tier, seed):
     # the functional drivers report C16 as well (same oracle, other workloads)
     runs += [RunSpec("gen", "d", "plain", q(tier, 16000, 400000)),
              RunSpec("ops", "d", "plain", q(tier, 60000, 3000000)),
-             RunSpec("pool", "d", "plain", q(tier, 640, 60000)),
+             RunSpec("pool", "d", "plain", q(tier, 640, 30000)),
              RunSpec("arith", "d", "plain", q(tier, 6720, 800000))]
     runs += expr_runs(tier, seed, scalars=("d",))
     if tier == "thorough":
@@ -1075,8 +1075,8 @@ def c19_runs(tier, seed):
     runs = [
         RunSpec("gen", "Q", "plain", q(tier, 6000, 300000)),
         RunSpec("eval", "Q", "plain", q(tier, 6000, 300000)),
-        RunSpec("pool", "Q", "plain", q(tier, 160, 10000)),
-        RunSpec("pool", "Q", "nochk", q(tier, 160, 10000)),
+        RunSpec("pool", "Q", "plain", q(tier, 160, 5000)),
+        RunSpec("pool", "Q", "nochk", q(tier, 160, 5000)),
         RunSpec("ops", "Q", "plain", q(tier, 30000, 1000000)),
         RunSpec("grids", "Q", "plain", q(tier, 40000, 1000000)),
         RunSpec("access", "Q", "plain", access_cases(N), params={"maxn": N}),
@@ -1189,8 +1189,8 @@ POOL_NT = ("Non-trivial/distinct: arithmetic steps whose operands all denote "
 
 
 def pool_runs(tier, seed, flavours=("plain",), scalars=("Q", "d")):
-    nq = q(tier, 480, 40000)
-    nd = q(tier, 640, 60000)
+    nq = q(tier, 480, 16000)
+    nd = q(tier, 640, 40000)
     runs = []
     for fl in flavours:
         for sc in scalars:
@@ -1250,8 +1250,8 @@ reg(Spec(
 
 
 def c10_runs(tier, seed):
-    runs = [RunSpec("pool", "Q", "plain", q(tier, 320, 30000)),
-            RunSpec("pool", "d", "nochk", q(tier, 640, 60000)),
+    runs = [RunSpec("pool", "Q", "plain", q(tier, 320, 12000)),
+            RunSpec("pool", "d", "nochk", q(tier, 640, 40000)),
             RunSpec("validate", "f", "plain", q(tier, 1200, 40000),
                     params={"gridblocks": 100, "gridpercase": 64})]
     if tier == "thorough":
